@@ -275,7 +275,8 @@ def scn_sim_burst(mon, seed):
             finished = [r for r in res if not r.failed()]
             if (len(boundary) >= 2 and finished) or (bursts == 1 and rng.random() < 0.15):
                 for _ in range(rng.choice([2, 2, 3, len(finished) + 1])):
-                    arrivals.append(chain(f"q{seed}_{nq}", Priority.QUERY, [rng.choice([0.5, 3.0, 10.0])]))
+                    # query pipelines of one to three operators (a waiting query job may carry several operators)
+                    arrivals.append(chain(f"q{seed}_{nq}", Priority.QUERY, [rng.choice([0.5, 3.0, 10.0])] * rng.choice([1, 1, 2, 3])))
                     nq += 1
                 bursts += 1
         for p in arrivals:
